@@ -651,7 +651,18 @@ func (e *Exec) exec(g *G, f *Frame, instr ssa.Instruction) bool {
 		if !e.check(g, tc.Cmp(OULE, tc.Const(64, uint64(n)), s.Len), "slice to array pointer: length too short") {
 			return false
 		}
-		panic(unsupported{"SliceToArrayPointer"})
+		// modelled as a pointer to a private copy of the range (sound for the read-only uses in
+		// netip/net; a store through it would not alias the slice and is not expected)
+		at := in.Type().(*types.Pointer).Elem()
+		c := e.newCell(at)
+		if c.SA == nil {
+			panic(unsupported{"SliceToArrayPointer of non-scalar array"})
+		}
+		if s.A != nil {
+			e.arrCopy(c.SA, tc.Const(64, 0), s.A, s.Off, tc.Const(64, uint64(n)))
+		}
+		f.env[in] = PtrV{C: c}
+		return true
 	case *ssa.MakeClosure:
 		fn := in.Fn.(*ssa.Function)
 		env := make([]Value, len(in.Bindings))
